@@ -1412,6 +1412,13 @@ class StyleProcessors:
   class WritingMode(StyleProcessor):
     style_prop = styles.StyleProperties.WritingMode
 
+    @classmethod
+    def inherit(cls, parent: model.ContentElement, element: model.ContentElement):
+      # tts:writingMode applies to regions only: the computed value of the region is handed down to its content,
+      # where computing other style properties (see `_get_writing_mode()`) needs it while the ISD is being built
+      # and the elements are not yet attached to their parents
+      element.set_style(cls.style_prop, parent.get_style(cls.style_prop))
+
   BY_STYLE_PROP = {
     processor.style_prop : processor
     for processor_name, processor in list(locals().items()) if inspect.isclass(processor) and processor.style_prop is not None
